@@ -236,8 +236,13 @@ directive @opd(tag: String) on QUERY | MUTATION | SUBSCRIPTION
 		}
 		fmt.Fprintf(&b, "type %s%s%s {\n  %s\n}\n", o, impl, tg, strings.Join(fields, "\n  "))
 	}
-	// roots
-	b.WriteString("type Query {\n")
+	// roots (every fourth schema renames them: nothing may depend on the default names)
+	qName, mName, sName := "Query", "Mutation", "Subscription"
+	if seed%4 == 1 {
+		qName, mName, sName = "Root", "Commands", "Feed"
+		b.WriteString("schema { query: Root mutation: Commands" + map[bool]string{true: " subscription: Feed", false: ""}[seed%3 == 0] + " }\n")
+	}
+	b.WriteString("type " + qName + " {\n")
 	nq := 3 + r.Intn(4)
 	for f := 0; f < nq; f++ {
 		if r.Intn(5) == 0 {
@@ -246,13 +251,13 @@ directive @opd(tag: String) on QUERY | MUTATION | SUBSCRIPTION
 		}
 		fmt.Fprintf(&b, "  q%d%s: %s%s\n", f, args(), wrapObj(composite[r.Intn(len(composite))]), guard(fmt.Sprintf("q%d", f)))
 	}
-	b.WriteString("}\ntype Mutation {\n")
+	b.WriteString("}\ntype " + mName + " {\n")
 	for f := 0; f < 2+r.Intn(2); f++ {
 		fmt.Fprintf(&b, "  m%d%s: %s\n", f, args(), wrapObj(objs[r.Intn(len(objs))]))
 	}
 	b.WriteString("}\n")
 	if seed%3 == 0 {
-		fmt.Fprintf(&b, "type Subscription {\n  ev: %s\n}\n", objs[0])
+		fmt.Fprintf(&b, "type %s {\n  ev: %s\n}\n", sName, objs[0])
 	}
 	return b.String()
 }
